@@ -72,6 +72,7 @@ def luhn(L, opt, seps=None):
             a = {'kind': 'luhn', 'mode': mode, 'args': {'digits': concretize_str(shown, ev), 'what': what}}
             a['args'].update(extra or {})
             return a
+        core.set_fallback(rp, 'C15/concretised')
         if what == 'digit':
             with guard('calculate_check_digit', 'C15/exception', rp):
                 cd = card.calculate_check_digit(shown)
